@@ -144,6 +144,7 @@ type VC struct {
 	uses      map[string]bool // contracts used (assumed) at call sites
 	sliceUFs  [][2]string     // uninterpreted functions of one slice: (name, row sort)
 	localCells [][2]string    // (component, ref) of the local variables' own cells
+	localTypes map[string]types.Type // every source-level local of the function under verification (from DebugRefs)
 }
 
 func newVC(eng *Engine, fn *ssa.Function, spec *FuncSpec) *VC {
